@@ -352,3 +352,17 @@ package regclient
 //@   in ~
 //@   infunc \)\.imageImportOCIPushManifests$
 //@   requires runs-the-handlers-in-reverse: idx == caller.i && 0 <= idx
+
+// ---- C03: every referrer request is recorded ----
+// "The complete image" includes the referrers the caller asked for, and callers may ask several
+// times (regctl passes one option per --referrers / --referrers-filter flag). imageCopyOpt copies
+// the union over the recorded configs, so each application of the option must append exactly one
+// config to the list - for an unfiltered request the empty config, which matches every referrer -
+// and keep the earlier ones.
+//@ func ImageWithReferrers$1(opts)
+//@   prop C03
+//@   entry-assume opts != nil
+//@   ensures list-exists: opts.referrerConfs != nil
+//@   ensures one-config-per-request: len(opts.referrerConfs) == old(len(opts.referrerConfs)) + 1
+//@   ensures unfiltered-request-matches-everything: len(rOpts) == 0 ==> opts.referrerConfs[len(opts.referrerConfs)-1] == scheme.ReferrerConfig{}
+//@   ensures earlier-requests-kept: forall(i, int, 0 <= i && i < old(len(opts.referrerConfs)) ==> opts.referrerConfs[i] == old(opts.referrerConfs)[i])
